@@ -24,4 +24,12 @@ class C04(ProgProp):
         return ProgProp.gen(self, rng, tier, k)
 
 
+    def post_spec(self, rng, spec, cfg, tier):
+        import json
+        import zlib
+        # batching must be the same with profiling on
+        if zlib.crc32(json.dumps(spec["templates"], sort_keys=True).encode()) % 4 == 0:
+            spec["options"] = {"COLLECT_PERF_STATS": True}
+
+
 PROP = C04()
